@@ -11,8 +11,18 @@
    proofs of either version); [entry_wire] only says that decoded length fields
    fit the fixed-width wire fields they were read from (uint16 label bit length,
    uint32 key/value lengths). *)
-From Verif Require Import Lib.Base Mkvs.Trie Mkvs.HashProofs
-  MkvsProof.Model MkvsProof.Sound MkvsProof.Complete MkvsProof.Examples MkvsProof.Final.
+From Verif Require Import Lib.Base Mkvs.Trie Mkvs.HashProofs Gen.ProofConsts
+  MkvsProof.Model MkvsProof.Sound MkvsProof.Complete MkvsProof.Examples MkvsProof.Final
+  MkvsProof.Remote MkvsProof.Iter MkvsProof.IterProofs.
+
+(* G: the constants read from syncer/proof.go are the ones the model was
+   written for (the depth limit itself is USED by the model, so a changed value
+   changes verify_depth_bounded / get_proof_complete as well) *)
+Theorem gen_consts_expected :
+  max_proof_depth = 128 /\ min_proof_version = 0 /\ latest_proof_version = 1 /\
+  proof_entry_full = 1 /\ proof_entry_hash = 2 /\ MAX_PROOF_DEPTH = max_proof_depth.
+Proof. repeat split. Qed.
+Print Assumptions gen_consts_expected.
 
 (* An accepted proof is the real tree with some subtrees / leaf pointers replaced
    by their hashes — whatever the entries were. *)
@@ -126,3 +136,87 @@ Theorem get_proof_complete_unbounded_refuted :
       verify H ver (root_hash H t) (root_hash H t) (build_get_proof H ver sib k t) = RErr EDepth.
 Proof. exact get_proof_complete_unbounded_refuted_l. Qed.
 Print Assumptions get_proof_complete_unbounded_refuted.
+
+(* ---------------- iterate / prefix proofs ---------------- *)
+(* ProofBuilder.build over ANY set of included pointer positions gives a proof
+   that is accepted for the tree's root and describes a pruning of the tree. *)
+Theorem included_set_proof_verifies : forall (H : bytes -> bytes), (forall x, length (H x) = HASH_SIZE) ->
+  forall ver inc t,
+  ver <= 1 -> (height t <= 129)%nat ->
+  exists p, verify H ver (root_hash H t) (root_hash H t) (gbuild H ver inc [] t) = ROk p /\
+            (prunes H p t \/ collision H) /\
+            (p = gprune H ver inc [] t \/ root_hash H t = H []).
+Proof. exact gbuild_verifies. Qed.
+Print Assumptions included_set_proof_verifies.
+
+(* PARTIAL: the proofs SyncIterate / SyncGetPrefixes build (model builders =
+   port of treeIterator.doNext/Next recording every dereferenced pointer,
+   compared entry-for-entry with the real proofs by the harness) are accepted
+   for the tree's root and prune the tree, for every tree of at most 129 entry
+   levels, every key / prefix list, prefetch / limit, both versions.  Missing
+   for the full statement: that a reader iterating over the resulting partial
+   tree meets no hash inside the covered range and obtains the first
+   prefetch+1 entries >= key of [contents t] (needs doNext_refines_seek); the
+   harness checks exactly that on the implementation for every honest iterate
+   proof, and ex_iterate_covers / ex_prefixes_covers on an example. *)
+Theorem iterate_proof_complete_partial : forall (H : bytes -> bytes), (forall x, length (H x) = HASH_SIZE) ->
+  forall ver t key prefetch,
+  ver <= 1 -> (height t <= 129)%nat ->
+  exists p, verify H ver (root_hash H t) (root_hash H t) (build_iter_proof H ver t key prefetch) = ROk p /\
+            (prunes H p t \/ collision H).
+Proof. exact iterate_proof_verifies_l. Qed.
+Print Assumptions iterate_proof_complete_partial.
+
+Theorem prefix_proof_complete_partial : forall (H : bytes -> bytes), (forall x, length (H x) = HASH_SIZE) ->
+  forall ver t prefixes limit,
+  ver <= 1 -> (height t <= 129)%nat ->
+  exists p, verify H ver (root_hash H t) (root_hash H t) (build_prefixes_proof H ver t prefixes limit) = ROk p /\
+            (prunes H p t \/ collision H).
+Proof. exact prefixes_proof_verifies_l. Qed.
+Print Assumptions prefix_proof_complete_partial.
+
+(* ---------------- the remote-backed reader ---------------- *)
+(* A reader that starts from the trusted root only and applies ANY sequence of
+   responses -- each handled as cache.remoteSync does: accepted only if it
+   verifies for the hash of the pointer being dereferenced or for the root,
+   then merged by hash equality -- and evictions of whole subtrees (unbounded
+   cache: no partial removal, [step_ok]) answers every Get with the full
+   replica's answer or with no answer (Unknown = error), or a collision of H
+   is exhibited. *)
+Theorem remote_tree_safe : forall (H : bytes -> bytes), (forall x, length (H x) = HASH_SIZE) ->
+  forall t steps,
+  wf t -> bounded t -> Forall step_ok steps ->
+  (forall fresh k, agrees t k (plookup_go H fresh 0 k (run_steps H (root_hash H t) steps)) /\
+                   agrees t k (plookup 0 k (run_steps H (root_hash H t) steps))) \/ collision H.
+Proof. exact remote_tree_safe_l. Qed.
+Print Assumptions remote_tree_safe.
+
+(* the executable Get loop (answer from the cache, else one fetch for the pointer
+   the walk stopped at, any list of responses): safe answer and the invariant is kept *)
+Theorem remote_get_safe : forall (H : bytes -> bytes), (forall x, length (H x) = HASH_SIZE) ->
+  forall t rs p k,
+  wf t -> bounded t -> Forall resp_ok rs -> prunes H p t ->
+  (agrees t k (fst (rget H (root_hash H t) p k rs)) /\ prunes H (snd (rget H (root_hash H t) p k rs)) t)
+  \/ collision H.
+Proof. exact rget_safe_l. Qed.
+Print Assumptions remote_get_safe.
+
+(* PARTIAL (iteration): every pair visible in the reader's cache is a real pair;
+   that consecutive yields are consecutive in [contents t] is not proved. *)
+Theorem remote_tree_iteration_safe_partial : forall (H : bytes -> bytes), (forall x, length (H x) = HASH_SIZE) ->
+  forall t steps,
+  bounded t -> Forall step_ok steps ->
+  incl (pleaves (run_steps H (root_hash H t) steps)) (contents t) \/ collision H.
+Proof. exact remote_tree_leaves_safe_l. Qed.
+Print Assumptions remote_tree_iteration_safe_partial.
+
+(* The excluded case is real: with the partial removal cache.tryRemoveNode
+   performs when it meets the locked pointer (bounded cache; finding
+   C04:bounded-cache-remote-tree-wrong-answer) a present key resolves absent. *)
+Theorem remote_tree_safe_bounded_cache_refuted :
+  exists H t steps k v,
+    (forall x, length (H x) = HASH_SIZE) /\ wf t /\ bounded t /\
+    tlookup k t = Some v /\
+    plookup_go H true 0 k (run_steps H (root_hash H t) steps) = Absent.
+Proof. exact remote_tree_safe_bounded_cache_refuted_l. Qed.
+Print Assumptions remote_tree_safe_bounded_cache_refuted.
